@@ -67,6 +67,23 @@ rfbSendCursorShape(rfbClientPtr cl)
 	pCursor = NULL;
     }
 
+    /* A cursor whose data does not fit into the update buffer cannot be sent in one piece.
+       The rectangle has already been counted in the update header, so failing here would
+       leave the client waiting for a rectangle that never comes: send an empty cursor. */
+    if (pCursor != NULL) {
+	bitmapRowBytes = (pCursor->width + 7) / 8;
+	maskBytes = bitmapRowBytes * pCursor->height;
+	dataBytes = (cl->useRichCursorEncoding) ?
+	    (pCursor->width * pCursor->height *
+	     (cl->format.bitsPerPixel / 8)) : maskBytes;
+	if ( sz_rfbFramebufferUpdateRectHeader +
+	     sz_rfbXCursorColors + maskBytes + dataBytes > UPDATE_BUF_SIZE ) {
+	    rfbLog("rfbSendCursorShape: cursor %dx%d too large for the update buffer, "
+		   "sending an empty cursor\n", pCursor->width, pCursor->height);
+	    pCursor = NULL;
+	}
+    }
+
     if (pCursor == NULL) {
 	if (cl->ublen + sz_rfbFramebufferUpdateRectHeader > UPDATE_BUF_SIZE ) {
 	    if (!rfbSendUpdateBuf(cl))
